@@ -269,7 +269,7 @@ def stream_case(schedule: list, which: str = "stream4") -> dict:
 
 @st.composite
 def gen_cases(draw):
-    mn = draw(st.sampled_from([0, 2, 2, 3]))
+    mn = draw(st.sampled_from([0, 2, 2, 2, 2, 3, 3, 2]))
     mx = draw(st.integers(max(mn, 1), max(mn, 1) + 2))
     interval = draw(st.sampled_from([0.5, 1.0]))
     stale = draw(st.sampled_from([0.0, 1.0, 2.5]))
@@ -283,7 +283,8 @@ def gen_cases(draw):
         callers.append([list(o) for o in ops])
     if not any(op[0] == "add" for ops in callers for op in ops):
         callers[0].append(["add", 0])
-    schedule = draw(IL.schedules(4, 220, 4, min_pre=0))
+    horizon = draw(st.sampled_from([25, 60, 60, 150, 300]))     # decision points vary a lot with the stream
+    schedule = draw(IL.schedules(4, horizon, 4, min_pre=1))
     return {"min": mn, "max": mx, "stale": stale, "interval": interval, "callers": callers,
             "schedule": schedule, "rel": True}
 
